@@ -130,6 +130,8 @@ type Interp struct {
 	pendingObs []pendingObs
 	thorough bool
 	pathVars []*Term
+	marshalTab map[uint64]marshalEntry
+	marshalSeq uint64
 	fpBitsMemo map[*Term]*Term // per path: math.Float64bits of the same FP term yields the same bits variable
 
 	// sinks
@@ -771,6 +773,23 @@ func (in *Interp) ensureInit(pkg *ssa.Package) {
 	in.pkgInit[pkg] = 1
 	defer func() { in.pkgInit[pkg] = 2 }()
 	if skipInitPkgs[pkg.Pkg.Path()] {
+		if pkg.Pkg.Path() == "os" {
+			// os's init is environment (files, args); its error sentinels are
+			// aliases of io/fs's and are needed by errors.Is / == tests
+			if fs := in.prog.ImportedPackage("io/fs"); fs != nil {
+				for _, n := range []string{"ErrInvalid", "ErrPermission", "ErrExist", "ErrNotExist", "ErrClosed"} {
+					if og, fg := pkg.Var(n), fs.Var(n); og != nil && fg != nil {
+						src := in.globalPtr(fg)
+						dst, ok := in.globals[og]
+						if !ok {
+							dst = Ptr{base: []Value{Iface{}}, i: 0}
+							in.globals[og] = dst
+						}
+						dst.base[dst.i] = src.base[src.i]
+					}
+				}
+			}
+		}
 		return
 	}
 	initFn := pkg.Func("init")
@@ -1527,6 +1546,7 @@ func (in *Interp) next(fr *frame, instr *ssa.Next, it Value) Value {
 		}
 		return Tuple{in.tt.Bool(false), in.zeroOrBad(tu.At(1).Type()), in.zeroOrBad(tu.At(2).Type())}
 	case *StrIter:
+		it.s.fix()
 		n := it.s.Len()
 		if it.pos >= n {
 			return Tuple{in.tt.Bool(false), in.tt.BVConst(0, 64), in.tt.BVConst(0, 32)}
